@@ -414,6 +414,22 @@ def r6_configured_mode_reaches_the_dispatch(ctx):
                 p = access_path(f, st["rv"]["ops"][names.index("default_handler_task_mode")], VALUE_PRESERVING) if "default_handler_task_mode" in names else None
                 ok = p is not None and p.kind() == "param" and p.path == ["default_handler_task_mode"]
                 ctx.check(R, "ConfigDropshot-conversion-carries-the-mode", ok, "From<DeserializedConfigDropshot>: default_handler_task_mode = %r" % p, (f, bb))
+    # Added after adversary change C16-I (the serialising conversion From<ConfigDropshot> for DeserializedConfigDropshot took "the rest" from
+    # `..Default::default()`, so a CancelOnDisconnect configuration written to TOML/JSON by a supervisor and read back came up Detached):
+    # the wire form of the configuration carries the mode too
+    back = ds.one(r"^<config::DeserializedConfigDropshot as std::convert::From<config::ConfigDropshot>>::from$")
+    if back is None:
+        ctx.lost(R, "From<ConfigDropshot> for DeserializedConfigDropshot (the `serde(into)` conversion)")
+    else:
+        sites = [(bb, st) for bb, i, st in back.aggregates(r"^config::DeserializedConfigDropshot$") if bb in back.reachable(0)]
+        okb = bool(sites)
+        shown = []
+        for bb, st in sites:
+            names = st["rv"].get("fields") or []
+            p = access_path(back, st["rv"]["ops"][names.index("default_handler_task_mode")], VALUE_PRESERVING) if "default_handler_task_mode" in names else None
+            shown.append(repr(p))
+            okb = okb and p is not None and p.kind() == "param" and p.path == ["default_handler_task_mode"]
+        ctx.check(R, "serialised-config-carries-the-mode", okb, "From<ConfigDropshot> for DeserializedConfigDropshot: default_handler_task_mode = %s" % (shown or "no aggregate"), back)
 
 
 RULES = [("C16.R6", r6_configured_mode_reaches_the_dispatch), ("C16.R5", r5_disconnect_record_only_when_dropped), ("C16.R4", r4_connection_config_shared), ("C16.R1", r1_mode_table), ("C16.R2", r2_exactly_once), ("C16.R3", r3_panic_propagation)]
